@@ -20,7 +20,8 @@ EXTENDS Emit, SequencesExt
 CONSTANTS Classes,       \* octets used by the model: END, ESC, ESC_END, ESC_ESC and one other
           MaxRaw,        \* raw decoder inputs up to this length, without injected errors
           MaxRawErr,     \* ... with an injected source or sink error at every position
-          MaxPayload     \* encoder payloads up to this length
+          MaxPayload,    \* encoder payloads up to this length
+          MaxGarbage     \* garbage prefixes in the start-of-frame resynchronisation family
 
 END == 192
 ESC == 219
@@ -134,63 +135,82 @@ ClassicFrames(s) == LET sg == Segments(s, <<>>)
 NonEmpty(fs) == SelectSeq(fs, LAMBDA f : f # <<>>)
 
 ---------------------------------------------------------------------------
-(* C12 on the model.  Families *)
+(* C12 on the model.  Every TLC state below is one *case* (an input, an error injection); the
+   properties are evaluated per case as state invariants so that TLC spreads them over its workers. *)
 Raw(n) == SeqsUpTo(Classes, n)
 Payloads == SeqsUpTo(Classes, MaxPayload)
+Short == SeqsUpTo(Classes, 2)
+One == SeqsUpTo(Classes, 1)
 Count(s, x) == Len(SelectSeq(s, LAMBDA y : y = x))
 
-RoundTrip == \A sof \in {0, 1} : \A pl \in Payloads :
-                LET rs == Run(Plain(sof, Encode(sof, pl)))
-                IN /\ Delivered(rs) = <<pl>>
-                   /\ rs[1].rc = 1                                      \* end-of-frame signalled by the first call
-DelimiterOnlyDelimits == \A sof \in {0, 1} : \A pl \in Payloads : Count(Encode(sof, pl), END) = 1 + sof
-LengthBound == \A sof \in {0, 1} : \A pl \in Payloads : Len(Encode(sof, pl)) <= 2 * Len(pl) + 1 + sof
-Short == SeqsUpTo(Classes, 2)
-ConcatenationDecodesInOrder ==
-    \A sof \in {0, 1} : \A a \in Short, b \in Short, c \in Short :
-        Delivered(Run(Plain(sof, Encode(sof, a) \o Encode(sof, b) \o Encode(sof, c)))) = <<a, b, c>>
+(* payload pl: round trip with end-of-frame by the first call, delimiter only delimits, length bound *)
+PayloadOK(sof, pl) ==
+    LET en == Encode(sof, pl)
+        rs == Run(Plain(sof, en))
+    IN /\ Delivered(rs) = <<pl>> /\ rs[1].rc = 1
+       /\ Count(en, END) = 1 + sof
+       /\ Len(en) <= 2 * Len(pl) + 1 + sof
+       /\ EncRun(sof, pl, 0, 0) = [rc |-> 0, out |-> en]
+ConcatOK(sof, a, b, c) ==
+    Delivered(Run(Plain(sof, Encode(sof, a) \o Encode(sof, b) \o Encode(sof, c)))) = <<a, b, c>>
 (* classic: exactly the well-formed terminated segments are delivered, intact and in order -
    in particular every well-formed frame after the delimiter that ends a corrupted prefix *)
-ResyncClassic == \A s \in Raw(MaxRaw) : Delivered(Run(Plain(0, s))) = ClassicFrames(s)
+ResyncClassicOK(s) == Delivered(Run(Plain(0, s))) = ClassicFrames(s)
 (* start-of-frame: after arbitrary garbage at most the first following non-empty frame is lost *)
-ResyncSof == \A g \in Raw(4) : \A a \in Short, b \in Short, c \in Short :
-                LET fs == <<a, b, c>>
-                    ne == NonEmpty(fs)
-                    must == IF ne = <<>> THEN <<>> ELSE Tail(ne)
-                    got == NonEmpty(Delivered(Run(Plain(1, g \o Encode(1, a) \o Encode(1, b) \o Encode(1, c)))))
-                IN IsSuffix(must, got)
-(* never emits more than it consumed; errors pass through unchanged; invalid escape is EILSEQ *)
+ResyncSofOK(g, a, b, c) ==
+    LET ne == NonEmpty(<<a, b, c>>)
+        must == IF ne = <<>> THEN <<>> ELSE Tail(ne)
+        got == NonEmpty(Delivered(Run(Plain(1, g \o Encode(1, a) \o Encode(1, b) \o Encode(1, c)))))
+    IN IsSuffix(must, got)
+(* never emits more than it consumed; errors pass through unchanged; only the documented codes *)
 RunSane(p) == LET rs == Run(p)
               IN /\ \A i \in 1..Len(rs) :
                       /\ Len(rs[i].out) <= rs[i].pos - (IF i = 1 THEN 0 ELSE rs[i - 1].pos)
                       /\ rs[i].rc \in {1, EILSEQ, ENODATA, SRCERR, SINKERR}
-                      /\ (rs[i].rc = SRCERR => p.errpos # 0) /\ (rs[i].rc = SINKERR => p.sinkat # 0)
+                 /\ (p.errpos # 0 <=> \E i \in 1..Len(rs) : rs[i].rc = SRCERR)
+                 /\ ((\E i \in 1..Len(rs) : rs[i].rc = SINKERR) => p.sinkat # 0)
                  /\ rs[Len(rs)].rc = ENODATA /\ rs[Len(rs)].pos = Len(p.inp)
-EmitsAtMostConsumed == \A sof \in {0, 1} : \A s \in Raw(MaxRawErr) :
-                          \A ep \in 0..Len(s) : \A sk \in 0..Len(s) : RunSane(Case(sof, s, ep, sk))
-ErrorsPassThrough == \A sof \in {0, 1} : \A s \in Raw(MaxRawErr) : \A ep \in 1..Len(s) :
-                        \E i \in 1..Len(Run(Case(sof, s, ep, 0))) : Run(Case(sof, s, ep, 0))[i].rc = SRCERR
-
-ASSUME RoundTrip /\ DelimiterOnlyDelimits /\ LengthBound /\ ConcatenationDecodesInOrder
-ASSUME ResyncClassic /\ ResyncSof
-ASSUME EmitsAtMostConsumed /\ ErrorsPassThrough
 
 ---------------------------------------------------------------------------
-(* E1: the case tables.  One TLC state per phase so that the work is spread over the workers. *)
+(* E1: the case tables, one TLC state per case *)
 RunLine(p) == "run " \o Join(<<p.sof, p.errpos, p.errcode, p.sinkat, p.sinkcode, Len(p.inp)>> \o p.inp)
               \o " | " \o Join(RunObs(p))
 EncLine(sof, pl, ep, sk) == LET r == EncRun(sof, pl, ep, sk)
                             IN "enc " \o Join(<<sof, ep, SRCERR, sk, SINKERR, Len(pl)>> \o pl)
                                \o " | " \o Join(<<r.rc, Len(r.out)>> \o r.out)
-Init == phase = <<"start">> /\ ev = Boot
-Next == /\ phase = <<"start">>
-        /\ \/ \E sof \in {0, 1}, s \in Raw(MaxRaw) :
-                phase' = <<"run", sof, s>> /\ ev' = Boot /\ EmitCase(RunLine(Plain(sof, s)))
-           \/ \E sof \in {0, 1}, s \in Raw(MaxRawErr), ep \in 0..MaxRawErr, sk \in 0..MaxRawErr :
-                /\ ep <= Len(s) /\ sk <= Len(s) /\ (ep > 0 \/ sk > 0)
-                /\ phase' = <<"runerr", sof, s, ep, sk>> /\ ev' = Boot /\ EmitCase(RunLine(Case(sof, s, ep, sk)))
-           \/ \E sof \in {0, 1}, pl \in Payloads, ep \in 0..MaxPayload, sk \in 0..MaxPayload + 2 :
-                /\ ep <= Len(pl) /\ sk <= Len(pl) + 1 + sof
-                /\ phase' = <<"enc", sof, pl, ep, sk>> /\ ev' = Boot /\ EmitCase(EncLine(sof, pl, ep, sk))
+(* buckets (initial states) spread the enumeration over TLC's workers: kind x sof x first octet *)
+First(s) == IF s = <<>> THEN 0 ELSE s[1]
+Firsts == Classes \cup {0}
+Init == /\ phase \in {<<"b", k, sof, f>> : k \in {"run", "runerr", "enc", "concat", "resync"}, sof \in {0, 1}, f \in Firsts}
+        /\ ev = Boot
+Next == /\ phase[1] = "b" /\ ev' = Boot
+        /\ LET kind == phase[2]
+               sof == phase[3]
+               f == phase[4]
+           IN \/ kind = "run" /\ \E s \in Raw(MaxRaw) : First(s) = f /\ phase' = <<"run", sof, s>>
+              \/ kind = "runerr" /\ \E s \in Raw(MaxRawErr), ep \in 0..MaxRawErr, sk \in 0..MaxRawErr :
+                    /\ First(s) = f /\ ep <= Len(s) /\ sk <= Len(s) /\ (ep > 0 \/ sk > 0)
+                    /\ phase' = <<"runerr", sof, s, ep, sk>>
+              \/ kind = "enc" /\ \E pl \in Payloads, ep \in 0..MaxPayload, sk \in 0..MaxPayload + 2 :
+                    /\ First(pl) = f /\ ep <= Len(pl) /\ sk <= Len(pl) + 1 + sof
+                    /\ ((ep = 0 /\ sk = 0) \/ Len(pl) <= MaxRawErr)
+                    /\ phase' = <<"enc", sof, pl, ep, sk>>
+              \/ kind = "concat" /\ \E a \in Short, b \in Short, c \in Short :
+                    First(a) = f /\ phase' = <<"concat", sof, a, b, c>>
+              \/ kind = "resync" /\ \E g \in Raw(MaxGarbage), a \in Short, b \in One, c \in One :
+                    First(g) = f /\ Len(g) % 2 = sof /\ phase' = <<"resync", g, a, b, c>>
 Spec == Init /\ [][Next]_<<vars, ev>>
+
+CaseOK ==
+    CASE phase[1] = "run" -> RunSane(Plain(phase[2], phase[3])) /\ (phase[2] = 0 => ResyncClassicOK(phase[3]))
+      [] phase[1] = "runerr" -> RunSane(Case(phase[2], phase[3], phase[4], phase[5]))
+      [] phase[1] = "enc" -> (phase[4] = 0 /\ phase[5] = 0) => PayloadOK(phase[2], phase[3])
+      [] phase[1] = "concat" -> ConcatOK(phase[2], phase[3], phase[4], phase[5])
+      [] phase[1] = "resync" -> ResyncSofOK(phase[2], phase[3], phase[4], phase[5])
+      [] OTHER -> TRUE
+EmitCases ==
+    CASE phase[1] = "run" -> EmitCase(RunLine(Plain(phase[2], phase[3])))
+      [] phase[1] = "runerr" -> EmitCase(RunLine(Case(phase[2], phase[3], phase[4], phase[5])))
+      [] phase[1] = "enc" -> EmitCase(EncLine(phase[2], phase[3], phase[4], phase[5]))
+      [] OTHER -> TRUE
 =============================================================================
